@@ -207,7 +207,7 @@ Definition verdict (k : kind) (errors : nat) (timed_out : bool) : list status :=
     if stop_fails timed_out hard errors
     then SFailure :: (if stop_ok_after_failure then [SOk] else [])
     else [SOk]
-  | KLoad => if load_ok errors then [SOk] else [SFailure]
+  | KLoad => if load_ok errors timed_out then [SOk] else [SFailure]
   end.
 
 (** loop top of [CommandHub::run]: which tasks finish now, with which flag *)
